@@ -391,7 +391,7 @@ def _style_table_node(ctx, rel, cname):
 
 
 def style_args_unit(cname, rel):
-    @unit(("C19", "C20"), f"common:BaseImage._check_style_args[{cname}]")
+    @unit("C19", f"common:BaseImage._check_style_args[{cname}]")
     def u(ctx):
         """The real body of `BaseImage._check_style_args` over the real `_style_args` table of the class (the table's lambdas are
         evaluated from the class body): a mapping holding every documented parameter with a value of any type is accepted iff every
